@@ -299,6 +299,53 @@ def check(prog, run):
         if need not in {tuple(s) for s in seqs}:
             run.report(r, "%s:_visit_method.wrapper:missing-path(%s)" % (VIS, ">".join(need)), wrapper.where(),
                        "the wrapper has no path %s" % list(need))
+    # value flow through the wrapper: what enter returned is what is traversed, what the traversal returned is what is
+    # left and handed back to the parent (a replacement made by enter is the node whose children are visited)
+    try:
+        _ev, wexits = boolx.walk_under(wrapper.node, lambda t: None)
+    except ValueError as e:
+        raise AnalysisError("C18.V3: %s" % e)
+
+    def norm_text(e):
+        return " ".join(ast.unparse(e).split())
+    enter_txt = "%s.enter(%s)" % (inst, node)
+    flow_bad = None
+    n_flow = 0
+    for kind, st, env in wexits:
+        stmts = env.get(boolx.STMTS, ())
+        for c in env.get(boolx.CALLS, ()):
+            holder = c
+            while holder is not None and not isinstance(holder, ast.stmt):
+                holder = getattr(holder, "_parent", None)
+            penv = boolx.path_env(stmts, holder)
+            if isinstance(c.func, ast.Name) and c.func.id == "method" and len(c.args) == 2:
+                n_flow += 1
+                got = norm_text(boolx.path_subst(c.args[1], penv))
+                if got != enter_txt:
+                    flow_bad = flow_bad or (c, "the traversal is applied to `%s` instead of the node enter returned" % got)
+            if isinstance(c.func, ast.Attribute) and c.func.attr == "leave" and isinstance(c.func.value, ast.Name) and c.func.value.id == inst and c.args:
+                n_flow += 1
+                got = norm_text(boolx.path_subst(c.args[0], penv))
+                if not got.startswith("method(%s, " % inst):
+                    flow_bad = flow_bad or (c, "leave is called with `%s` instead of what the traversal returned" % got)
+        if kind == "return" and st is not None and st.value is not None and not env.get(boolx.HANDLERS):
+            got = norm_text(boolx.path_subst(st.value, boolx.path_env(stmts, st)))
+            n_flow += 1
+            if got == "None":
+                # `return None` where the threaded value is known to be None on this execution
+                penv = boolx.path_env(stmts, st)
+                for atom, val in env.items():
+                    if atom in boolx.META or not isinstance(atom, str):
+                        continue
+                    for suffix, want in ((" is None", True), (" is not None", False)):
+                        if atom.endswith(suffix) and val is want and atom[:-len(suffix)] in penv:
+                            got = norm_text(penv[atom[:-len(suffix)]])
+            if not (got.startswith("method(%s, " % inst) or got == enter_txt):
+                flow_bad = flow_bad or (st, "the wrapper returns `%s`, neither the traversal's result nor (when enter returned None) enter's" % got)
+    r.instance("wrapper value flow: %d uses checked" % n_flow)
+    if flow_bad is not None:
+        run.report(r, "%s:_visit_method.wrapper:value-flow" % VIS, wrapper.where(flow_bad[0]),
+                   "%s: a node substituted by enter (or by the traversal) is not the one that is traversed, left and put into the parent" % flow_bad[1])
     # every _visit_* that is a registry target or recursive visitor is decorated
     for name, m in visitor.methods.items():
         if name.startswith("_visit_") and any(name == h for h in routes):
